@@ -1,0 +1,21 @@
+//go:build verif
+
+package verifexport
+
+import "go.minekube.com/gate/pkg/internal/tablist"
+
+// Re-exports of pkg/internal/tablist for the out-of-module verification harness of property C28.
+// No logic: type aliases and one forwarding function.
+type (
+	// C28InternalTabList is tablist.InternalTabList.
+	C28InternalTabList = tablist.InternalTabList
+	// C28Viewer is tablist.Viewer.
+	C28Viewer = tablist.Viewer
+	// C28Entry is tablist.Entry.
+	C28Entry = tablist.Entry
+	// C28EntryAttributes is tablist.EntryAttributes.
+	C28EntryAttributes = tablist.EntryAttributes
+)
+
+// C28New forwards to tablist.New.
+func C28New(viewer C28Viewer) C28InternalTabList { return tablist.New(viewer) }
